@@ -41,31 +41,60 @@ class is_paused(ContractBase):
     inline = True
 
 
-@contract(W, 'dawgie/pl/schedule.py', 'find', props=['C01', 'C03'])
+SN1 = SetOf(NODE)
+w_root1 = z3.Function('w_tree_above', SN1.sort(), NODE.sort(), NODE.sort())           # some tree among S that holds n
+tree_node_of = z3.Function('tree_node_of', SN1.sort(), ATOM.sort(), NODE.sort())      # choice: a node of the trees S with that tag
+
+
+def under1(S, n):
+    return And(S[w_root1(S, n)], reach(w_root1(S, n), n))
+
+
+def in_trees(view, S, g):
+    w = tree_node_of(S, g)
+    return And(under1(S, w), tag(view, w) == g)
+
+
+def choice_tree(view):
+    S, r, n = z3.Const('ct_S', SN1.sort()), z3.Const('ct_r', NODE.sort()), z3.Const('ct_n', NODE.sort())
+    return [QHyp([r, n, S], Implies(And(S[r], reach(r, n)), under1(S, n)), 'choice.tree', triggers=[(reach, (0, 1))]),
+            QHyp([S, n], Implies(under1(S, n), in_trees(view, S, tag(view, n))), 'choice.tree-node')]
+
+
+@contract(W, 'dawgie/pl/schedule.py', 'find', props=['C01', 'C03', 'C05'])
 class find(ContractBase):
     params = {'job': ATOM}
     returns = NODE
     modifies = []
     locals = {'avail': Bag(NODE)}
-    assumes = [lambda c: [choice_axiom(c.old), J3(c.old)]]
+    assumes = [lambda c: [choice_axiom(c.old), J3(c.old)] + choice_tree(c.old)]
 
     @staticmethod
     def _missing(c):
         q = que(c.old)
         w = node_of(q, c['job'])
         return Not(And(q[w], tag(c.old, w) == c['job']))
-    # IndexError only when no queued node has the tag (and then only if the tree has none either)
-    raises = {'IndexError': lambda c: find._missing(c)}
+
+    @staticmethod
+    def _at(c):
+        return c.old.f('Construct._at', Opt(CONSTRUCT).val(c.old.g('dawgie.pl.schedule.ae')))
+
+    @staticmethod
+    def _in_tree(c):
+        return And(Not(Opt(CONSTRUCT).is_none(c.old.g('dawgie.pl.schedule.ae'))), in_trees(c.old, find._at(c), c['job']))
+    # IndexError exactly when neither the queue nor any task tree (at any depth) has a node with that tag
+    raises = {'IndexError': lambda c: And(find._missing(c), Not(find._in_tree(c)))}
 
     def ensures(c):
         q = que(c.old)
         queued = Not(find._missing(c))
         return {'tag': tag(c.old, c.result) == c['job'],
-                'queued-node-when-queued': Implies(queued, And(q[c.result], c.result == node_of(q, c['job'])))}
+                'queued-node-when-queued': Implies(queued, And(q[c.result], c.result == node_of(q, c['job']))),
+                'tree-node-when-the-job-left-the-queue': Implies(Not(queued), under1(find._at(c), c.result))}
 
     def _inv(c):
         n = c.sk('n', NODE)
-        return {'tags': Implies(c.loc('avail')[n], tag(c.old, n) == c['job']),
+        return {'found-so-far': Implies(find._missing(c), c.loc('avail')[n] == And(tag(c.old, n) == c['job'], under1(c.done, n))),
                 'still-empty-of-queued': Implies(c.loc('avail')[n], find._missing(c))}
     loops = {'for root in dawgie.pl.schedule.ae.at': Loop(inv=_inv)}
 
